@@ -17,8 +17,10 @@ _NET = "core/network.py"
 _uses("Network.local_cliquishness[uses]", _NET, "Network.local_cliquishness", ("C03", "C20"),
       {"self.N": "int", "self.adjacency": "arr:int16:2", "order": "int", "self.directed": "bool", "self.silence_level": "int"},
       ["self.N>=0", "shape(self.adjacency,0)==self.N and shape(self.adjacency,1)==self.N"],
-      {_k: ["order==%d" % _o, "arg0==self.N and arg0>=0", "shape(arg1,0)==arg0 and shape(arg1,1)==arg0", "shape(arg2,0)==arg0",
-            "same_array(arg1, self.adjacency)"]
+      # (`len(x)` instead of `shape(x,0)` first: it stays an obligation when a changed call site makes the argument opaque)
+      {_k: ["order==%d" % _o, "arg0==self.N and arg0>=0", "len(arg1)==arg0", "len(arg2)==arg0",
+            "shape(arg1,0)==arg0 and shape(arg1,1)==arg0", "shape(arg2,0)==arg0",
+            "all(arg1[a,b]==self.adjacency[a,b] for a in range(self.N) for b in range(self.N))"]
        for _o, _k in ((4, "_local_cliquishness_4thorder"), (5, "_local_cliquishness_5thorder"))},
       total="<=1")
 REG["Network.local_cliquishness[uses]"][0].contract.call_facts = {
@@ -45,3 +47,79 @@ for _v in ("I", "II", "III"):
                  "shape(arg3,0)==shape(distance_matrix,0) and shape(arg3,1)==shape(distance_matrix,1)"]})
     if _v == "III":
         _c.call_facts = {"self.degree": {"returns": "arr:int64:1", "ensures": ["shape(result,0)==self.N"]}}
+
+# ============================================================================ InteractingNetworks: cross-link null models (static)
+_IN = "core/interacting_networks.py"
+# kernel(A, cross_A, number_cross_links, nodes1, nodes2, m, n)
+# assumed: shape(A,1)==shape(A,0) (A_new = network.adjacency.astype(ADJ): `.astype` is not modelled; Network.adjacency is
+#   square by its setter); node indices inside [0, shape(A,0)), pairwise distinct, the two lists disjoint, m>=1, n>=1
+#   (node_list1 / node_list2 are handed in by the caller and never checked)
+_uses("InteractingNetworks.RandomlySetCrossLinks[uses]", _IN, "InteractingNetworks.RandomlySetCrossLinks", ("C17", "C20"),
+      {"nodes1": "arr:int32:1", "nodes2": "arr:int32:1", "cross_A": "arr:int8:2"}, [],
+      {"_randomlySetCrossLinks": ["len(arg3)==arg5 and len(arg4)==arg6", "arg5>=0 and arg6>=0", "len(arg1)==arg5",
+                                  "shape(arg1,0)==arg5 and shape(arg1,1)==arg6",
+                                  # stronger than the kernel's `binary`: the matrix handed over is empty
+                                  "all(arg1[i,j]==0 for i in range(arg5) for j in range(arg6))",
+                                  "all(arg3[i]==nodes1[i] for i in range(arg5)) and all(arg4[j]==nodes2[j] for j in range(arg6))"]})
+
+# kernel(A, cross_A, cross_links, nodes1, nodes2, number_cross_links, number_swaps)
+# assumed: everything about shapes - shape(A,1)==shape(A,0) (`.astype` not modelled), shape(cross_A)==(len(nodes1),len(nodes2))
+#   (result of network.cross_adjacency on the *lists*; the arrays nodes1/nodes2 are built separately from the same lists),
+#   cross_links is the table of the non-zero entries of cross_A with number_cross_links rows (np.array(cross_A.nonzero()).T),
+#   number_cross_links>=1, node index ranges / distinctness / disjointness (caller's lists).
+# What is proved: the kernel is called exactly once and gets cross_A, nodes1, nodes2 in this order.
+_uses("InteractingNetworks.RandomlyRewireCrossLinks[uses]", _IN, "InteractingNetworks.RandomlyRewireCrossLinks", ("C17", "C20"),
+      {"nodes1": "arr:int32:1", "nodes2": "arr:int32:1", "cross_A": "arr:int8:2", "swaps": "float"}, [],
+      {"_randomlyRewireCrossLinks": ["len(arg3)==len(nodes1) and len(arg4)==len(nodes2)", "len(arg1)==len(cross_A)",
+                                     "shape(arg1,1)==shape(cross_A,1)",
+                                     "all(arg3[i]==nodes1[i] for i in range(len(nodes1))) and all(arg4[j]==nodes2[j] for j in range(len(nodes2)))",
+                                     "all(arg1[i,j]==cross_A[i,j] for i in range(shape(cross_A,0)) for j in range(shape(cross_A,1)))"]})
+
+# ============================================================================ InteractingNetworks: cross transitivity / clustering
+# region requires (all four): Network.adjacency (setter) rejects non-square input and sets self.N; getter = sp_A.toarray()
+_ADJ_IN = {"self.N": "int", "self.adjacency": "arr:int16:2"}
+_ADJ_RQ = ["self.N>=0", "shape(self.adjacency,0)==self.N and shape(self.adjacency,1)==self.N"]
+_A0 = ["len(arg0)==self.N", "shape(arg0,1)==shape(arg0,0)"]
+# NumPy semantics assumed for np.eye(n, dtype=...): the n x n identity
+_EYE = {"np.eye": {"returns": "arr:int8:2", "ensures": [
+    "shape(result,0)==arg0 and shape(result,1)==arg0",
+    "all(result[a,b]==ite(a==b,1,0) for a in range(arg0) for b in range(arg0))"]}}
+
+# kernel(A, nodes1, nodes2)
+# assumed: node indices inside [0, N) (caller's lists); len(nodes) <= INT32_MAX
+_uses("InteractingNetworks.cross_transitivity[uses]", _IN, "InteractingNetworks.cross_transitivity", ("C11", "C04", "C20"),
+      _ADJ_IN, _ADJ_RQ,
+      {"_cross_transitivity": _A0 + ["all(arg0[a,b]==self.adjacency[a,b] for a in range(self.N) for b in range(self.N))"]})
+
+# kernel(A, norm, nodes1, nodes2, cross_clustering)
+# call fact: InteractingNetworks.cross_degree(self, l1, l2) = row sums of cross_adjacency(l1, l2): one entry per node of l1
+# assumed: shape(cross_clustering,0)==len(nodes1) (np.zeros_like(nodes1, ...) is not modelled); node index ranges
+_c = _uses("InteractingNetworks.cross_local_clustering[uses]", _IN, "InteractingNetworks.cross_local_clustering", ("C11", "C04", "C20"),
+           dict(_ADJ_IN, nodes1="arr:int32:1", nodes2="arr:int32:1"), _ADJ_RQ,
+           {"_cross_local_clustering": _A0 + ["len(arg1)==len(arg2)", "len(arg2)==len(nodes1) and len(arg3)==len(nodes2)",
+                                              "all(arg0[a,b]==self.adjacency[a,b] for a in range(self.N) for b in range(self.N))",
+                                              "all(arg2[i]==nodes1[i] for i in range(len(nodes1))) and all(arg3[j]==nodes2[j] for j in range(len(nodes2)))"]})
+_c.call_facts = {"InteractingNetworks.cross_degree": {"returns": "arr:int64:1", "ensures": ["shape(result,0)==shape(arg1,0)"]}}
+
+# kernel(A, nsi_cc, nodes1, nodes2, node_weights)     A = adjacency + identity
+# region requires: Network.node_weights (setter) rejects a weight vector whose length is not self.N
+# assumed: node index ranges (caller's lists)
+_c = _uses("InteractingNetworks.nsi_cross_local_clustering[uses]", _IN, "InteractingNetworks.nsi_cross_local_clustering",
+           ("C11", "C02", "C04", "C20"),
+           dict(_ADJ_IN, nodes1="arr:int32:1", nodes2="arr:int32:1", **{"self.node_weights": "arr:float64:1"}),
+           _ADJ_RQ + ["shape(self.node_weights,0)==self.N"],
+           {"_nsi_cross_local_clustering": _A0 + ["len(arg1)==len(arg2)", "len(arg4)==len(arg0)",
+                                                  "len(arg2)==len(nodes1) and len(arg3)==len(nodes2)",
+                                                  "all(arg1[i]==0 for i in range(len(arg2)))",
+                                                  "all(arg0[a,b]==self.adjacency[a,b]+ite(a==b,1,0) for a in range(self.N) for b in range(self.N))",
+                                                  "all(arg4[a]==self.node_weights[a] for a in range(self.N))"]})
+_c.call_facts = dict(_EYE)
+
+# kernel(A, nodes1, nodes2, node_weights)
+_c = _uses("InteractingNetworks.nsi_cross_transitivity[uses]", _IN, "InteractingNetworks.nsi_cross_transitivity",
+           ("C11", "C02", "C04", "C20"),
+           dict(_ADJ_IN, **{"self.node_weights": "arr:float64:1"}), _ADJ_RQ + ["shape(self.node_weights,0)==self.N"],
+           {"_nsi_cross_transitivity": _A0 + ["len(arg3)==len(arg0)",
+                                              "all(arg0[a,b]==self.adjacency[a,b]+ite(a==b,1,0) for a in range(self.N) for b in range(self.N))",
+                                              "all(arg3[a]==self.node_weights[a] for a in range(self.N))"]})
+_c.call_facts = dict(_EYE)
